@@ -234,12 +234,17 @@ mutual
           | _ => skip
         match e with
         | .start tag attrs =>
+            -- (as repaired) the code in the attributes of excluded elements is searched as well
             if skip1 = 0 then
-              if excluded cfg tag attrs then exList cfg st cs xs 1 es
+              if excluded cfg tag attrs then do
+                let ms ← exList cfg st cs xs 1 es
+                pure (extractAttrs cfg false attrs ++ ms)
               else do
                 let ms ← exList cfg st cs xs 0 es
                 pure (extractAttrs cfg st attrs ++ ms)
-            else exList cfg st cs xs skip1 es
+            else do
+              let ms ← exList cfg st cs xs skip1 es
+              pure (extractAttrs cfg false attrs ++ ms)
         | .text s => do
             let ms ← exList cfg st cs xs skip1 es
             if skip1 = 0 && st && !(strip s).isEmpty && hasLetter (strip s) then
